@@ -76,8 +76,10 @@ func Profiles(prop string) []Profile {
 		return []Profile{
 			{MinN: 2, MaxN: 8, Steps: 30, Dups: true},
 			{MinN: 3, MaxN: 8, Steps: 30, Chain: true},
-			{MinN: 3, MaxN: 6, Steps: 50, Dups: true, Dynamic: true},
+			{MinN: 3, MaxN: 6, Steps: 50, Dups: true, Dynamic: true, Withdraws: true},
 			{MinN: 3, MaxN: 6, Steps: 50, Dups: true, Dynamic: true, Expiry: true},
+			// several exits for one prefix, exits withdraw: the nearest remaining one must be preferred
+			{MinN: 3, MaxN: 7, Steps: 40, Withdraws: true, Routes: 6},
 		}
 	case "C14":
 		return []Profile{
@@ -167,6 +169,14 @@ func Main(t *testing.T, prop string) {
 			}
 		}
 	}
+	// concurrent announce vs. full-table replay at one origin: distinct sequence numbers
+	seqStress := func(rounds int) {
+		cs := &Case{Name: "stress-concurrent-sequences", N: rounds}
+		c.Case(cs.Name, true, cs)
+		if d := StressConcurrentSequences(rounds); d != "" {
+			c.Fail("duplicate-sequence-concurrently", d, cs)
+		}
+	}
 	if c.Replay != "" {
 		var cs Case
 		if err := c.ReadReplay(&cs); err != nil {
@@ -174,6 +184,8 @@ func Main(t *testing.T, prop string) {
 		}
 		if cs.Name == "stress-concurrent-copies" {
 			stress(cs.N)
+		} else if cs.Name == "stress-concurrent-sequences" {
+			seqStress(cs.N)
 		} else if cs.Name == "scenario-unreadable-path-replay" {
 			scenarioUnreadable()
 		} else {
@@ -212,6 +224,7 @@ func Main(t *testing.T, prop string) {
 		}
 		if prop == "C11" {
 			stress(c.N(6000, 30000))
+			seqStress(c.N(4000, 20000))
 		}
 		if prop == "C14" {
 			scenarioUnreadable()
